@@ -460,6 +460,24 @@ def check_c10(ctx: Ctx, job):
     ctx.count("errors_in_epoch:%d" % min(nerr, 3))
     ctx.count("W:%d" % cfg["W"])
     ctx.count("interval:" + str(cfg.get("interval")))
+    if cfg.get("in_order") is False and cfg["W"] > 0:
+        # out-of-order delivery: per epoch the same multiset of batches and errors, each exactly once, then StopIteration
+        def epochs_of(st):
+            out, cur = [], []
+            for o in st:
+                if o[0] in ("stop", "hang", "error-at-iter"):
+                    out.append(sorted(cur) + [repr(o[0])])
+                    cur = []
+                else:
+                    cur.append(repr(o))
+            if cur:
+                out.append(sorted(cur) + ["(no end)"])
+            return out
+        if epochs_of(got) != epochs_of(want):
+            ctx.fail("C10:unordered_errors", job,
+                     f"in_order=False, policy {pol}: epochs as multisets {epochs_of(got)} but the failing items "
+                     f"{sorted(cfg.get('fail', []))}/{sorted(cfg.get('collate_fail') or [])} imply {epochs_of(want)}")
+        return
     if got != want:
         d = C01._first_diff(got, want)
         ctx.fail("C10:error_position", job,
@@ -498,6 +516,8 @@ def gen_c10(ctx: Ctx, n: int):
             cfg["collate_fail"] = sorted(ctx.rng.sample(items, min(k, len(items))))
         elif cfg["W"] > 0:
             cfg["init_fail"] = [ctx.rng.randrange(cfg["W"])]
+        if cfg["W"] > 0 and not sdl.is_iter(cfg) and (cfg.get("fail") or cfg.get("collate_fail")) and ctx.rng.random() < 0.3:
+            cfg["in_order"] = False  # errors overtaking / being overtaken by other batches
         job = {"cfg": cfg, "seed": ctx.rng.randrange(1 << 30), "policy": ctx.rng.choice(POLICIES)}
         if cfg.get("init_fail"):
             job["preload"] = ctx.rng.random() < 0.5
